@@ -734,12 +734,12 @@ class Interp(object):
             with self.window("start", self.cur_ctx, decl=sers["start"], logged=fs, t=t, h=h):
                 a = self.call("ActionType", at.as_task if task else at, **kw)
         elif task:
-            if h % 4 == 1:     # an explicit Logger object (all loggers share the process-wide destinations)
+            if h % 4 == 1 and not self.case.get("swapped_logger"):     # an explicit Logger object (all loggers share the process-wide destinations)
                 a = self.call("start_task", el.start_task, el.Logger(), type_name(t), **kw)
             else:
                 a = self.call("start_task", el.start_task, action_type=type_name(t), **kw)
         else:
-            if h % 4 == 1:
+            if h % 4 == 1 and not self.case.get("swapped_logger"):
                 a = self.call("start_action", el.start_action, el.Logger(), type_name(t), **kw)
             else:
                 a = self.call("start_action", el.start_action, action_type=type_name(t), **kw)
@@ -779,7 +779,10 @@ class Interp(object):
                 self.call("Message.write", m2.write)
             elif api == "Message.write_logger":
                 m = self.call("Message.new", el.Message.new, message_type=type_name(t), **kw)
-                self.call("Message.write", m.write, el.Logger())
+                if self.case.get("swapped_logger"):     # the run is captured by swapping the default logger: use that one
+                    self.call("Message.write", m.write)
+                else:
+                    self.call("Message.write", m.write, el.Logger())
             elif api == "Message.write_action":
                 # the current action passed explicitly
                 m = self.call("Message.new", el.Message.new, message_type=type_name(t), **kw)
@@ -1382,7 +1385,7 @@ class Gen(object):
             if sers is None and rng.random() < self.p_finish_inside and not _escapes(body):
                 # finish() called as the last thing inside the action's own block (the block's exit then finishes again: no-op)
                 body = body + [["finish_again", h, self.exn() if rng.random() < 0.5 else None]]
-                if rng.random() < 0.4:
+                if rng.random() < 0.5:
                     body = body + [["raise", self.exn()]]     # finished explicitly, then the block still fails
             self.finished.append(h)
             return ["act", h, style, task, t, fs, sers, succ, body, api]
